@@ -392,6 +392,18 @@ impl Structured {
         let mut v = vec![vec![false; n], vec![true; n]];
         v.push((0..n).map(|i| i % 2 == 0).collect());
         v.push((0..n).map(|i| i % 2 == 1).collect());
+        if n > 1000 {
+            // very wide lists: single NULLs / non-NULLs and prefixes around the positions where a
+            // bitmap byte index passes 255 (column 2046), 511 and the last byte
+            let marks: Vec<usize> = [0usize, 7, 8, 2037, 2038, 2045, 2046, 2047, 2048, 2053, 2054, 2055, 4093, 4094, 4095, n - 9, n - 8, n - 2, n - 1].iter().copied().filter(|i| *i < n).collect();
+            for i in marks {
+                v.push((0..n).map(|j| j == i).collect());
+                v.push((0..n).map(|j| j != i).collect());
+                v.push((0..n).map(|j| j < i).collect());
+                v.push((0..n).map(|j| j >= i).collect());
+            }
+            return v;
+        }
         let singles: Vec<usize> = if n <= 70 { (0..n).collect() } else { (0..n).filter(|i| *i < 10 || *i + 10 >= n || (i + 2) % 8 <= 1 && *i % 64 < 8).collect() };
         for i in singles {
             v.push((0..n).map(|j| j == i).collect());
@@ -1368,16 +1380,16 @@ impl Family for TemporalEdges {
 
 pub fn build(quick: bool) -> Check {
     let mut ns: Vec<usize> = (13..=70).collect();
-    ns.extend([127, 128, 129, 255, 256, 257, 300, 511, 512, 513, 1000]);
+    ns.extend([127, 128, 129, 255, 256, 257, 300, 511, 512, 513, 1000, 2046, 2047, 2048, 2049, 2054, 2100, 4097, 16_384, 65_535]);
     if quick {
-        ns.retain(|n| *n <= 40 || [62, 63, 64, 65, 70, 127, 128, 129, 255, 256, 257, 1000].contains(n));
+        ns.retain(|n| *n <= 40 || [62, 63, 64, 65, 70, 127, 128, 129, 255, 256, 257, 1000, 2046, 2047, 2049, 2100, 4097].contains(n));
     }
     Check {
         id: "C07",
         level: "model_checking",
-        rule: format!("binary resultsets through the real run_on, decoded from the advertised column definitions by refwire and cell by cell by mysql_common's BinValue: column counts 1..{} x all 2^n NULL patterns (three rows: pattern, complement, pattern) with 12 cycling column types of different widths; column counts up to 1000 with structured patterns (none, all, every single NULL / non-NULL, alternations, prefixes/suffixes ending around every multiple of 8); NULL into NOT NULL for all patterns of <= 6 columns x 4 flag placements; the matrix of {} value sources x all 31 column types x signedness x NOT NULL; at the to_mysql_bin seam every second of 0..838:59:59 x 3 microsecond values as TIME, every calendar date of years 0..9999 as DATE, every second of a day x 3 microsecond values as DATETIME, 22 microsecond values of every decimal shape at midnight and other times and at day boundaries of TIME; a refused cell (NULL into NOT NULL, wrong type, out of range, invalid generic date/time) at each column followed by a replacement value; rows built partly by write_col and partly by write_row over columns of different width and signedness, every split point, with values that fit a neighbouring column but not their own. Oracle: decoded cells equal the written values, bitmap bits = NULL cells exactly, natural pairings accepted, anything accepted is exact, mismatches refused without emitting undecodable output. Temporal values the protocol cannot carry (nanoseconds below a microsecond, chrono's leap second, durations of 2^32 days and more): refused, or decoded to a legal value equal to the written one up to the microsecond. Binary resultsets of 2 and 10 columns exactly N exchanges apart (N = 0, 1, 254..257, 65534..65537; thorough: more) with text resultsets, completions or zero-column sets in between. Very many rows: one binary resultset of 4097 / 8193 / 16385 / 65537 (thorough: up to 300000) rows of 3 and 10 columns, first row long, NULLs and values moving with the row number, every row compared. Values in context: every sequence of <= 3 (thorough: 4) events on one connection (rows of other shapes incl. all-NULL / alternating NULLs / 300- and 70000-byte cells, a refused cell, a new resultset behind finish_one with the same or other columns, behind a completion, behind a zero-column set, a new command in the same or the other protocol, finish_error) followed by a probe row of characteristic values for nine column types; every row of the conversation must decode cell for cell to what was written. Non-trivial = bitmap crosses a byte boundary or a type pairing the unit tests never make.", if quick {12} else {14}, value_palette().len()),
+        rule: format!("binary resultsets through the real run_on, decoded from the advertised column definitions by refwire and cell by cell by mysql_common's BinValue: column counts 1..{} x all 2^n NULL patterns (three rows: pattern, complement, pattern) with 12 cycling column types of different widths; column counts up to 1000 with structured patterns (none, all, every single NULL / non-NULL, alternations, prefixes/suffixes ending around every multiple of 8) and of 2046..4097 (thorough: 16384, 65535) columns with single NULLs / non-NULLs and prefixes / suffixes around columns 2038..2055, 4093..4095 and the last bitmap byte; NULL into NOT NULL for all patterns of <= 6 columns x 4 flag placements; the matrix of {} value sources x all 31 column types x signedness x NOT NULL; at the to_mysql_bin seam every second of 0..838:59:59 x 3 microsecond values as TIME, every calendar date of years 0..9999 as DATE, every second of a day x 3 microsecond values as DATETIME, 22 microsecond values of every decimal shape at midnight and other times and at day boundaries of TIME; a refused cell (NULL into NOT NULL, wrong type, out of range, invalid generic date/time) at each column followed by a replacement value; rows built partly by write_col and partly by write_row over columns of different width and signedness, every split point, with values that fit a neighbouring column but not their own. Oracle: decoded cells equal the written values, bitmap bits = NULL cells exactly, natural pairings accepted, anything accepted is exact, mismatches refused without emitting undecodable output. Temporal values the protocol cannot carry (nanoseconds below a microsecond, chrono's leap second, durations of 2^32 days and more): refused, or decoded to a legal value equal to the written one up to the microsecond. Binary resultsets of 2 and 10 columns exactly N exchanges apart (N = 0, 1, 254..257, 65534..65537; thorough: more) with text resultsets, completions or zero-column sets in between. Very many rows: one binary resultset of 4097 / 8193 / 16385 / 65537 (thorough: up to 300000) rows of 3 and 10 columns, first row long, NULLs and values moving with the row number, every row compared. Values in context: every sequence of <= 3 (thorough: 4) events on one connection (rows of other shapes incl. all-NULL / alternating NULLs / 300- and 70000-byte cells, a refused cell, a new resultset behind finish_one with the same or other columns, behind a completion, behind a zero-column set, a new command in the same or the other protocol, finish_error) followed by a probe row of characteristic values for nine column types; every row of the conversation must decode cell for cell to what was written. Non-trivial = bitmap crosses a byte boundary or a type pairing the unit tests never make.", if quick {12} else {14}, value_palette().len()),
         assumptions: vec!["integer range rules are C15's; here an accepted integer must be exact".into()],
-        bounds: json!({"exhaustive_null_patterns_up_to_columns": if quick {12} else {14}, "max_columns": 1000}),
+        bounds: json!({"exhaustive_null_patterns_up_to_columns": if quick {12} else {14}, "max_columns": if quick {4097} else {65535}}),
         exhaustive: true,
         caps_hit: vec![],
         families: vec![Box::new(AllPatterns { max_n: if quick { 12 } else { 14 } }), Box::new(Structured { ns }), Box::new(NotNull), Box::new(TypeMatrix { vals: value_palette() }), Box::new(TemporalBin), Box::new(Recover), Box::new(MixedRows), Box::new(super::aftermath::Aftermath { prop: "C07" }), Box::new(TemporalEdges { bin: true }), Box::new(ResultsetsBetween { ns: if quick { vec![0, 1, 254, 255, 256, 257, 65_534, 65_535, 65_536, 65_537] } else { vec![0, 1, 2, 126, 127, 128, 254, 255, 256, 257, 511, 512, 4095, 4096, 32_767, 32_768, 65_533, 65_534, 65_535, 65_536, 65_537, 131_071, 131_072] } }), Box::new(ManyRows { ns: if quick { vec![4097, 8193, 16385, 65537] } else { vec![255, 257, 4095, 4097, 8193, 16385, 32769, 65535, 65537, 131073, 300000] } }), Box::new(super::context::ContextWalks { prop: "C07", depth: 1, start_bin: true }), Box::new(super::context::ContextWalks { prop: "C07", depth: 2, start_bin: true }), Box::new(super::context::ContextWalks { prop: "C07", depth: 3, start_bin: true }), Box::new(super::context::ContextWalks { prop: "C07", depth: if quick { 0 } else { 4 }, start_bin: true })],
